@@ -66,6 +66,58 @@ theorem set_no_exit_translated (bm : Bitmap) (n : Nat) (i : Int)
   | true => rfl
   | false => exact absurd (Or.inr ⟨hgt, ha⟩) h'
 
+
+/-! ### the index arithmetic of `Bitmap.Set` / `Bitmap.IsSet` -/
+
+/-- every index and shift of `IsSet`: byte `(n-1)/8`, bit `7 - (n-1) mod 8` — the model's `getD`
+index and `mask` exponent (Go's `uint(7-(n-1)) % 8` wraps modulo 2^64, a multiple of 8: Euclidean
+`%` on `Int` is the same number) -/
+theorem isSet_arith_translated (n dataLen : Nat) (hn : 1 ≤ n) (bit : Bool) :
+    (bitmap_IsSet_indices n dataLen bit).all (fun i => i = (((n - 1) / 8 : Nat) : Int)) = true ∧
+    (bitmap_IsSet_shifts n dataLen bit).all (fun k => k = ((7 - (n - 1) % 8 : Nat) : Int)) = true := by
+  unfold bitmap_IsSet_indices bitmap_IsSet_shifts
+  constructor <;> simp only [List.all_cons, List.all_nil, Bool.and_true, decide_eq_true_eq] <;> omega
+
+/-- every index, shift and loop start of `Set`: the continuation bit goes into the first byte of
+the LAST block held (`len - blockLen`), new blocks get their continuation bit at their first byte,
+the bit itself into byte `(n-1)/8` at position `7 - (n-1) mod 8`, and the number of blocks appended
+is `⌊(n-1)/(8·blockLen)⌋ + 1 - len/blockLen` — the model's `orAt` indices, `mask` exponent and
+`newBlocks` count -/
+theorem set_arith_translated (auto : Bool) (n dataLen blockLen : Nat) (hn : 1 ≤ n) (hb : blockLen ≤ dataLen) (i : Int) :
+    bitmap_Set_indices (!auto) n dataLen blockLen i =
+      [((dataLen - blockLen : Nat) : Int), 0, (((n - 1) / 8 : Nat) : Int)] ∧
+    bitmap_Set_shifts (!auto) n dataLen blockLen i = [((7 - (n - 1) % 8 : Nat) : Int)] ∧
+    bitmap_Set_loopInits (!auto) n dataLen blockLen i =
+      [(((n - 1) / (blockLen * 8) + 1 : Nat) : Int) - ((dataLen / blockLen : Nat) : Int)] := by
+  unfold bitmap_Set_indices bitmap_Set_shifts bitmap_Set_loopInits
+  have e1 : ((n : Int) - 1) / 8 = (((n - 1) / 8 : Nat) : Int) := by omega
+  have e2 : (7 - ((n : Int) - 1)) % 8 = ((7 - (n - 1) % 8 : Nat) : Int) := by omega
+  have e3 : (dataLen : Int) - (blockLen : Int) = ((dataLen - blockLen : Nat) : Int) := by omega
+  have e4 : ((n : Int) - 1) / ((blockLen : Int) * 8) + 1 = (((n - 1) / (blockLen * 8) + 1 : Nat) : Int) := by
+    have : ((n : Int) - 1) = ((n - 1 : Nat) : Int) := by omega
+    rw [this, show ((blockLen : Int) * 8) = ((blockLen * 8 : Nat) : Int) by push_cast; rfl, ← Int.natCast_ediv]
+    push_cast; rfl
+  have e5 : (dataLen : Int) / (blockLen : Int) = ((dataLen / blockLen : Nat) : Int) := by
+    rw [Int.natCast_ediv]
+  simp only [e1, e2, e3, e4, e5, and_self]
+
+/-- the model's `set` uses exactly these: the first `orAt` index and the bit's byte and mask -/
+theorem set_model_arith (bm : Bitmap) (n : Nat) (hn : n ≠ 0) (hin : ¬ n > bm.data.length * 8) :
+    (bm.set n).data = orAt bm.data ((n - 1) / 8) (mask n) ∧
+    mask n = UInt8.ofNat (2 ^ (7 - (n - 1) % 8)) := by
+  constructor
+  · simp [Bitmap.set, hn, hin]
+  · rfl
+
+/-- … and when the bitmap expands: the continuation bit at `len - blockLen`, then
+`⌊(n-1)/(8·blockLen)⌋ + 1 - len/blockLen` new blocks, then the bit -/
+theorem set_model_expand (bm : Bitmap) (n : Nat) (hn : n ≠ 0) (hgt : n > bm.data.length * 8) (ha : bm.auto = true) :
+    (bm.set n).data =
+      orAt (orAt bm.data (bm.data.length - bm.blockLen) (UInt8.ofNat Gen.firstBitOn) ++
+              newBlocks bm.blockLen ((n - 1) / (bm.blockLen * 8) + 1 - bm.data.length / bm.blockLen))
+        ((n - 1) / 8) (mask n) := by
+  simp [Bitmap.set, hn, hgt, ha]
+
 /-! ### the block loop of `Bitmap.Unpack` = `Bitmap.unpackLoop` -/
 
 theorem unpack_guards_iff (dae fb : Bool) (decodedLen : Nat) :
